@@ -106,3 +106,29 @@ def _(called, err, observed, a):
     # CFUNC pins err, CABSL/CABSR + minimisation pin a
     requires(called + err <= observed, called + err >= observed, a >= 0, a + err >= 0, a - err >= 0)
     ensures(a >= abs(observed - called), label="fit-error-lower-bound")
+
+
+@lemma("L-cut")
+def _(a, b, c):
+    types(a="int", b="int", c="int")
+    # C05 enumeration: after yielding a solution whose active binaries are {x, y} (z inactive), Gurobi.solutions adds
+    # the cut  x + y <= 2 - 1  (slice solutions@cut). For any later assignment (a, b, c) of (x, y, z): it violates the
+    # cut iff its active set is a superset of {x, y}; in particular the yielded assignment (1, 1, 0) itself is cut off
+    # ("no binary assignment is yielded twice") and nothing but supersets is lost ("... has a superset of the active
+    # binaries of some yielded solution")
+    requires(is01(a), is01(b), is01(c))
+    ensures((not (a + b <= 2 - 1)) == (a == 1 and b == 1), label="cut-excludes-exactly-the-supersets")
+    ensures(not (1 + 1 <= 2 - 1), label="yielded-assignment-cut-off")
+
+
+@lemma("L-zero-fit")
+def _(called, observed):
+    types(called="float", observed="float")
+    # C01 / C02 "on noise-free evidence from catalogued alleles the true combination is among the reported ones with
+    # error zero": when the called copy number of a variant equals the observed one, error term 0 with absolute-value
+    # helper 0 satisfies the fit equation (CFUNC) and the helper constraints (CABSL / CABSR), so the planted assignment
+    # is feasible with fit error 0 at that site - and no assignment scores below 0 (L-fit: a >= |observed - called| >= 0)
+    requires(called == observed)
+    ensures(called + 0 <= observed and called + 0 >= observed and 0 >= 0 and 0 + 0 >= 0 and 0 - 0 >= 0, label="zero-error-feasible")
+    ensures(forall(lambda a=float, err=float: implies(called + err <= observed and called + err >= observed and a >= 0 and a + err >= 0 and a - err >= 0, a >= 0)),
+            label="zero-is-minimal")
